@@ -45,6 +45,10 @@ WITNESS_TESTS = {
     "file": "witness/c04_data_with_last_handshake_bytes.rs", "props": ["C04"], "pairs_fn": ["hs_app_actions", "ZmtpEngine::process_ready", "ZmtpEngine::process_v2_identity"],
     "what": "raw TCP peer writes greeting + READY (or the ZMTP/2.0 identity frame) + two messages in ONE write to a PULL socket: both messages are delivered",
   },
+  "c01_dealer_queue_overtake": {
+    "file": "witness/c01_dealer_queue_overtake.rs", "props": ["C01"], "pairs_fn": ["DealerSocket::send_logical_message", "DealerSocket::try_send_sync"],
+    "what": "DEALER (SNDHWM 4, SNDTIMEO 0) -> ROUTER (RCVHWM 1) over tcp, 60000 numbered 2 KiB messages against a receiver that drains in bursts: every accepted message arrives once, in send order",
+  },
   "c13_wait_for_connection_lost_wakeup": {
     "file": "witness/c13_wait_for_connection_lost_wakeup.rs", "props": ["C13"], "pairs_fn": ["LoadBalancer::wait_for_connection"],
     "append_to": "core/src/socket/patterns/load_balancer.rs", "test_filter": "verif_lost_wakeup_witness",
@@ -102,7 +106,7 @@ PROPS = {
 }
 
 PROPS["C01"] = {
-  "units": ["egress", "enc", "framer", "batch", "hsout", "drivers"],
+  "units": ["egress", "enc", "framer", "batch", "hsout", "drivers", "dealerq"],
   "kani_quick": [], "kani_thorough": [],
   "claim": "Session-local byte-stream conservation, proved unbounded on the verbatim functions: EgressBuffer (push appends at the tail, advance(n) drops exactly n bytes from the front for every n and every chunking, "
            "push_priority inserts only after the partially written head chunk, counters follow the view) and the batch encoders (frame_contiguous / frame_vectored / NullFramer wrappers emit exactly enc_batches of the frames in batch order: "
@@ -111,8 +115,9 @@ PROPS["C01"] = {
            "in the operational loop's ingress-read arm (regions of run_loop, unit hsout) protocol replies produced while parsing (PONG) are queued through EgressBuffer::push_priority in order and never written to the socket directly "
            "(the byte stream belongs to the egress buffer: a direct write would land inside a partially written frame), and every decoded message is appended to the ingress queue in order; "
            "the two hand-written futures of the session (unit drivers): EgressDriver::poll keeps `bytes accepted by the socket ++ bytes pending` constant at EVERY exit (Ready, Pending, error: a partial write advances the buffer by exactly what was taken) and "
-           "terminates; IngressDriver::poll removes batches only from the front, in order, and an in-flight asynchronous send always carries the batch that is still at the front (popped only when that send completes). End-to-end delivery across tasks, pipes and the kernel is a whole-system property and is not claimed.",
-  "level_note": "Sequential contracts on single-owner state (the session actor owns EgressBuffer exclusively). Not covered: the select!/loop structure around the two regions (which arm runs when), DEALER pending queue, inproc path, fibre channels, the 'accepted during connect' part.",
+           "terminates; IngressDriver::poll removes batches only from the front, in order, and an in-flight asynchronous send always carries the batch that is still at the front (popped only when that send completes); DEALER's two send paths (unit dealerq: send_logical_message and the synchronous fast path try_send_sync) hand a message to a peer directly only when the pending queue is empty and the queue processor holds nothing in flight, "
+           "otherwise it is appended at the back of the queue (FIFO). End-to-end delivery across tasks, pipes and the kernel is a whole-system property and is not claimed.",
+  "level_note": "Sequential contracts on single-owner state (the session actor owns EgressBuffer exclusively). Not covered: the select!/loop structure around the two regions (which arm runs when), DEALER's queue processor task (its in-flight flag is assumed to be written only under the queue lock), inproc path, fibre channels, the 'accepted during connect' part.",
   "technique": "contract-based deductive verification (Verus on mechanically extracted real functions; abstract view + representation invariant)",
   "trusted_base": COMMON_TRUSTED + ["vstd VecDeque specs + assume_specification for VecDeque::front/is_empty",
                                      "unit batch: contract of CorePipeManagerX::try_recv_batch_from_core (fibre channel hands over the oldest r <= max messages in order) assumed; Vec::drain + VecDeque::extend by std semantics; "
@@ -308,7 +313,7 @@ PROPS["C11"] = {
 }
 
 PROPS["C14"] = {
-  "units": ["iface", "route", "egress", "batch", "anon", "routerrecv", "flags"],
+  "units": ["iface", "route", "egress", "batch", "anon", "routerrecv", "flags", "dealerq"],
   "kani_quick": [], "kani_thorough": [],
   "claim": "Error mapping only, proved on the verbatim async functions of the session-backed connection interface (ScaConnectionIface): with SNDTIMEO = 0 a full pipe yields would-block at once and the batch is handed back unchanged; "
            "with SNDTIMEO = -1 send_multipart_owned never answers would-block or timeout (untimed wait); errors are only would-block / timeout / connection-closed; try_send_multipart_owned_sync and try_route_sync hand a refused batch back intact; "
@@ -318,6 +323,7 @@ PROPS["C14"] = {
            "ROUTER (unit routerrecv, ghost clock): RCVTIMEO = 0 arms no timer and never waits; timeout is answered only for a positive RCVTIMEO and not before first-clock-reading + RCVTIMEO; "
            "EVERY timer the receive loop arms expires at that one deadline however often the loop goes round (not unboundedly later); RCVTIMEO = -1 arms no timer. "
            "With SNDTIMEO = 0 and the pipe at the high-water mark every entry point of the session-backed interface (send_message, send_multipart, send_multipart_owned) fails at once with would-block (ghost oracle for the pipe's state). "
+           "DEALER's pending queue (unit dealerq, queueing step of queue_message_or_error as a region) never grows beyond SNDHWM and a full queue takes nothing. "
            "Two known findings are reported: send_message / send_multipart turn SNDTIMEO = -1 into a 30 s timed wait followed by would-block.",
   "level_note": "Elapsed-time accuracy (no earlier than / not unboundedly later: the ghost wait log records the duration handed to tokio::time::timeout, not wall time; for ROUTER the ghost clock bounds every armed timer by the one deadline), and 'buffering stays within HWM + a fixed allowance under any producer/consumer speeds' are runtime/schedule properties: not covered. "
                 "The pipe (fibre BoundedAsyncSender) and tokio::time::timeout enter as abstract stand-ins: try_send never waits and returns the refused item; a timed send either completes, fails, or elapses.",
